@@ -115,6 +115,7 @@ type Sym struct {
 	noInline      map[*ssa.Function]bool
 	pointees      map[*ssa.Parameter]*Term // content of the object a pointer parameter designates, as seen at the call
 	inBufferCat   bool
+	inSumAcc      map[*ssa.Phi]bool
 	inLoopAcc     map[*ssa.Phi]bool
 	// for closure bodies: the evaluator of the enclosing activation and the
 	// MakeClosure instruction, to resolve captured locals
@@ -264,6 +265,9 @@ func (s *Sym) eval(v ssa.Value) *Term {
 		if t := s.loopAccumulator(v); t != nil {
 			return t
 		}
+		if t := s.sumAccumulator(v); t != nil {
+			return t
+		}
 		var args []*Term
 		same := true
 		for _, e := range v.Edges {
@@ -364,6 +368,9 @@ func (s *Sym) evalSlice(v *ssa.Slice) *Term {
 	// x[:] of a local array initialised element-wise with constants: literal
 	if v.Low == nil && v.High == nil {
 		if al, ok := v.X.(*ssa.Alloc); ok {
+			if t := s.arrayFilledThroughViews(al, v); t != nil {
+				return t
+			}
 			if lit := s.arrayLiteral(al, v); lit != nil {
 				return lit
 			}
@@ -409,6 +416,136 @@ func (s *Sym) evalSlice(v *ssa.Slice) *Term {
 	return T("slice", "", x, lo, hi)
 }
 
+// flowsToReturn: some result of fn is (a view of) the object root.
+func flowsToReturn(fn *ssa.Function, root ssa.Value) bool {
+	for _, b := range fn.Blocks {
+		for _, in := range b.Instrs {
+			ret, ok := in.(*ssa.Return)
+			if !ok {
+				continue
+			}
+			for _, v := range ret.Results {
+				if rootObj(resolveCell(v)) == root {
+					return true
+				}
+				// a cell that is not resolvable: any store of a view of root into it
+				if ld, ok := v.(*ssa.UnOp); ok && ld.Op == token.MUL {
+					if cell, ok := ld.X.(*ssa.Alloc); ok {
+						for _, r := range *cell.Referrers() {
+							if st, ok := r.(*ssa.Store); ok && st.Addr == ssa.Value(cell) && rootObj(st.Val) == root {
+								return true
+							}
+						}
+					}
+				}
+			}
+		}
+	}
+	return false
+}
+
+// viewWriter: instruction u may write the bytes of slice view `view`.
+func viewWriter(u ssa.Instruction, view ssa.Value) bool {
+	if d, ok := u.(*ssa.Defer); ok {
+		// a deferred wipe runs when the function returns, after every read the
+		// function's own body makes
+		if b, ok := d.Call.Value.(*ssa.Builtin); ok && b.Name() == "clear" && !flowsToReturn(d.Parent(), rootObj(view)) {
+			return false
+		}
+	}
+	switch x := u.(type) {
+	case ssa.CallInstruction:
+		cc := x.Common()
+		if b, ok := cc.Value.(*ssa.Builtin); ok {
+			return b.Name() == "copy" && cc.Args[0] == view || b.Name() == "clear"
+		}
+		for _, a := range cc.Args {
+			if a == view && fillerCallee(calleeName(cc)) {
+				return true
+			}
+		}
+		if strings.HasSuffix(calleeName(cc), "(hash.Hash).Sum") {
+			return true
+		}
+	case *ssa.IndexAddr:
+		for _, uu := range *x.Referrers() {
+			if st, ok := uu.(*ssa.Store); ok && st.Addr == ssa.Value(x) {
+				return true
+			}
+		}
+	}
+	return false
+}
+
+// arrayFilledThroughViews: var buf [N]byte; F(..., buf[:]) ...; buf[:] - a
+// local byte array written only by ONE filler call through a full view, read
+// at `at` through another (or the same) full view after that call: the same
+// fresh buffer make(N, fill) the make([]byte, N) form yields.
+func (s *Sym) arrayFilledThroughViews(al *ssa.Alloc, at *ssa.Slice) *Term {
+	arr, ok := deref(al.Type()).Underlying().(*types.Array)
+	if !ok {
+		return nil
+	}
+	if b, ok := arr.Elem().Underlying().(*types.Basic); !ok || b.Kind() != types.Byte {
+		return nil
+	}
+	var filler ssa.CallInstruction
+	var fview *ssa.Slice
+	for _, r := range *al.Referrers() {
+		switch x := r.(type) {
+		case *ssa.DebugRef:
+		case *ssa.Slice:
+			if x.Low != nil || x.Max != nil {
+				return nil
+			}
+			if x.High != nil {
+				if c, ok := x.High.(*ssa.Const); !ok || c.Value == nil || c.Int64() != arr.Len() {
+					return nil
+				}
+			}
+			for _, u := range *x.Referrers() {
+				if !viewWriter(u, x) {
+					continue
+				}
+				ci, isCall := u.(ssa.CallInstruction)
+				if !isCall || filler != nil {
+					return nil
+				}
+				cc := ci.Common()
+				if b, isB := cc.Value.(*ssa.Builtin); isB && b.Name() != "copy" {
+					return nil // clear(...)
+				}
+				if strings.HasSuffix(calleeName(cc), "(hash.Hash).Sum") {
+					return nil // handled by the digest rule
+				}
+				filler, fview = ci, x
+			}
+		default:
+			return nil // element stores, address taken otherwise
+		}
+	}
+	if filler == nil || !dominates(filler, at) {
+		return nil
+	}
+	ln := T("const", fmt.Sprintf("%d", arr.Len()))
+	cc := filler.Common()
+	if b, isB := cc.Value.(*ssa.Builtin); isB && b.Name() == "copy" {
+		return T("make", "", ln, T("copy", "", s.Of(cc.Args[1])))
+	}
+	var args []*Term
+	if cc.IsInvoke() {
+		args = append(args, s.Of(cc.Value))
+	}
+	for _, a := range cc.Args {
+		if a == ssa.Value(fview) {
+			args = append(args, T("const", "dst"))
+		} else {
+			args = append(args, s.Of(a))
+		}
+	}
+	return canonBigBytes(T("make", "", ln, &Term{Op: "fill", Name: calleeName(cc), Args: args, Site: filler}))
+}
+
 // arrayLiteral recognises `t = new [n]byte; t[i] = c_i ...; t[:]`, which is
 // how go/ssa builds []byte{...} and the variadic tail of append(x, a, b).
 func (s *Sym) arrayLiteral(al *ssa.Alloc, at ssa.Instruction) *Term {
@@ -440,6 +577,12 @@ func (s *Sym) arrayLiteral(al *ssa.Alloc, at ssa.Instruction) *Term {
 				elems[i] = s.objAt(st.Val, st)
 			}
 		case *ssa.Slice:
+			// a view handed to something that may fill it: not a literal
+			for _, u := range *r.Referrers() {
+				if viewWriter(u, r) {
+					return nil
+				}
+			}
 		case *ssa.DebugRef:
 		default:
 			return nil
@@ -812,6 +955,9 @@ func (s *Sym) load(v *ssa.UnOp) *Term {
 		}
 		return T("load", "", s.opaque(a))
 	case *ssa.IndexAddr:
+		if t := s.slotForward(a, v); t != nil {
+			return t
+		}
 		return T("index", "", s.Of(a.X), s.Of(a.Index))
 	}
 	// *p for a pointer parameter whose designated object the caller described
@@ -1635,6 +1781,8 @@ func (s *Sym) hashSumX(v *ssa.Call, core bool) *Term {
 		case "Write":
 			parts = append(parts, s.Of(c.Common().Args[0]))
 		case "Sum", "Size", "BlockSize":
+		case "Reset":
+			parts = nil // back to the initial state: earlier writes no longer count
 		default:
 			parts = append(parts, T("unknown", "hash method "+c.Common().Method.Name()))
 		}
@@ -1804,6 +1952,9 @@ func (s *Sym) evalMake(v *ssa.MakeSlice) *Term {
 }
 
 func (s *Sym) bufferTerm(v ssa.Value, ln *Term) *Term {
+	if t := s.stridedFill(v); t != nil {
+		return t
+	}
 	if t := s.bufferCat(v); t != nil {
 		return t
 	}
@@ -2129,7 +2280,7 @@ func (s *Sym) bufferCat(v ssa.Value) *Term {
 						bad = true
 						return
 					}
-					parts = append(parts, bufPart{off, ln, T("make", "", lt, &Term{Op: "fill", Name: name, Args: args, Site: x})})
+					parts = append(parts, bufPart{off, ln, canonBigBytes(T("make", "", lt, &Term{Op: "fill", Name: name, Args: args, Site: x}))})
 				}
 			}
 		}
@@ -2225,6 +2376,472 @@ func (s *Sym) bufferCat(v ssa.Value) *Term {
 	return catTerms(out...)
 }
 
+// stridedFill: buf := make([]byte, n*E); for i := 0; i < n; i++ { copy(buf[i*E:(i+1)*E], x(i)) }
+// (or buf[start:start+E] with start := i*E) is n fixed-width slots written back
+// to back: each(make(E, copy(x(i)))) - the same term the slot-per-element form
+// (slots[i] = make(E); copy(slots[i], x(i)); emit every slot) produces. Matched
+// structurally on SSA: the only uses of buf besides reads are ONE slice
+// expression inside a loop whose bounds are i*E and i*E+E for that loop's
+// 0-based unit-step induction variable bounded by n, filled by ONE copy.
+func (s *Sym) stridedFill(v ssa.Value) *Term {
+	ms, ok := v.(*ssa.MakeSlice)
+	if !ok || !isByteSliceOrString(ms.Type().Underlying()) {
+		return nil
+	}
+	mul := func(x ssa.Value) (a, b ssa.Value, ok bool) {
+		bo, isBo := x.(*ssa.BinOp)
+		if !isBo || bo.Op != token.MUL {
+			return nil, nil, false
+		}
+		return bo.X, bo.Y, true
+	}
+	la, lb, ok := mul(ms.Len)
+	if !ok {
+		return nil
+	}
+	var view *ssa.Slice
+	for _, r := range *ms.Referrers() {
+		switch x := r.(type) {
+		case *ssa.Slice:
+			if x.Low == nil && x.High == nil {
+				continue // whole-buffer read view
+			}
+			if view != nil {
+				return nil
+			}
+			view = x
+		case *ssa.IndexAddr:
+			for _, u := range *x.Referrers() {
+				if st, isSt := u.(*ssa.Store); isSt && st.Addr == ssa.Value(x) {
+					return nil
+				}
+			}
+		case ssa.CallInstruction:
+			cc := x.Common()
+			if b, isB := cc.Value.(*ssa.Builtin); isB {
+				if b.Name() == "copy" && cc.Args[0] == v {
+					return nil
+				}
+				continue
+			}
+			if fillerCallee(calleeName(cc)) {
+				return nil
+			}
+		}
+	}
+	if view == nil || view.Low == nil || view.High == nil {
+		return nil
+	}
+	// the view is written by exactly one copy and nothing else
+	var cp *ssa.Call
+	for _, r := range *view.Referrers() {
+		c, isCall := r.(*ssa.Call)
+		if !isCall {
+			if _, isDbg := r.(*ssa.DebugRef); isDbg {
+				continue
+			}
+			return nil
+		}
+		b, isB := c.Call.Value.(*ssa.Builtin)
+		if !isB || b.Name() != "copy" || c.Call.Args[0] != ssa.Value(view) || cp != nil {
+			return nil
+		}
+		cp = c
+	}
+	if cp == nil {
+		return nil
+	}
+	// low = i*E
+	ia, ib, ok := mul(view.Low)
+	if !ok {
+		return nil
+	}
+	var iv *ssa.Phi
+	var E ssa.Value
+	if ph, isPhi := ia.(*ssa.Phi); isPhi {
+		iv, E = ph, ib
+	} else if ph, isPhi := ib.(*ssa.Phi); isPhi {
+		iv, E = ph, ia
+	} else {
+		return nil
+	}
+	sameVal := func(a, b ssa.Value) bool {
+		if a == b {
+			return true
+		}
+		ca, ok1 := a.(*ssa.Const)
+		cb, ok2 := b.(*ssa.Const)
+		return ok1 && ok2 && ca.Value != nil && cb.Value != nil && ca.Value.ExactString() == cb.Value.ExactString()
+	}
+	// high = low + E  or  (i+1)*E
+	okHigh := false
+	if bo, isBo := view.High.(*ssa.BinOp); isBo {
+		switch bo.Op {
+		case token.ADD:
+			okHigh = (bo.X == view.Low && sameVal(bo.Y, E)) || (bo.Y == view.Low && sameVal(bo.X, E))
+		case token.MUL:
+			for _, pr := range [][2]ssa.Value{{bo.X, bo.Y}, {bo.Y, bo.X}} {
+				if inc, isInc := pr[0].(*ssa.BinOp); isInc && inc.Op == token.ADD && sameVal(pr[1], E) {
+					if c, isC := inc.Y.(*ssa.Const); isC && inc.X == ssa.Value(iv) && c.Value != nil && c.Value.ExactString() == "1" {
+						okHigh = true
+					}
+				}
+			}
+		}
+	}
+	if !okHigh {
+		return nil
+	}
+	// i: 0-based, unit step, loop continues while i < n; buffer length n*E
+	var loop *Loop
+	for _, l := range naturalLoops(s.fn) {
+		if l.Header == iv.Block() {
+			loop = l
+		}
+	}
+	if loop == nil || !loop.Blocks[cp.Block()] || len(iv.Edges) != 2 {
+		return nil
+	}
+	for i, e := range iv.Edges {
+		if loop.Blocks[iv.Block().Preds[i]] {
+			inc, isInc := e.(*ssa.BinOp)
+			if !isInc || inc.Op != token.ADD || inc.X != ssa.Value(iv) {
+				return nil
+			}
+			if c, isC := inc.Y.(*ssa.Const); !isC || c.Value == nil || c.Value.ExactString() != "1" {
+				return nil
+			}
+		} else if c, isC := e.(*ssa.Const); !isC || c.Value == nil || c.Value.ExactString() != "0" {
+			return nil
+		}
+	}
+	var n ssa.Value
+	if ifi, isIf := iv.Block().Instrs[len(iv.Block().Instrs)-1].(*ssa.If); isIf {
+		if bo, isBo := ifi.Cond.(*ssa.BinOp); isBo && bo.Op == token.LSS && bo.X == ssa.Value(iv) && loop.Blocks[iv.Block().Succs[0]] {
+			n = bo.Y
+		}
+	}
+	if n == nil {
+		return nil
+	}
+	if !((sameVal(la, n) && sameVal(lb, E)) || (sameVal(lb, n) && sameVal(la, E))) {
+		return nil
+	}
+	return T("each", "", T("make", "", s.Of(E), T("copy", "", s.Of(cp.Call.Args[1]))))
+}
+
+// slotForward: slots := make([][]byte, n); for i := 0; i < n; i++ { slots[i] = V(i) }
+// ... slots[j] read in a later loop over the same n. When `slots` is a local
+// slice of byte slices used only through slots[k] element addresses and len,
+// with ONE store site whose loop runs k = 0..n-1 (n the make's own length), a
+// later load of slots[j] is V(j). Returned with the store loop's own index
+// variable in it (rules match element indices with a wildcard); the load must
+// be outside the store loop and dominated by its exit.
+func (s *Sym) slotForward(ia *ssa.IndexAddr, at *ssa.UnOp) *Term {
+	ms, ok := ia.X.(*ssa.MakeSlice)
+	if !ok {
+		return nil
+	}
+	if _, ok := ms.Type().Underlying().(*types.Slice); !ok {
+		return nil
+	}
+	var store *ssa.Store
+	for _, r := range *ms.Referrers() {
+		switch x := r.(type) {
+		case *ssa.DebugRef:
+		case *ssa.IndexAddr:
+			for _, u := range *x.Referrers() {
+				switch y := u.(type) {
+				case *ssa.Store:
+					if y.Addr != ssa.Value(x) || store != nil {
+						return nil
+					}
+					store = y
+				case *ssa.UnOp, *ssa.DebugRef:
+				default:
+					return nil
+				}
+			}
+		case *ssa.Call:
+			if b, isB := x.Call.Value.(*ssa.Builtin); !isB || (b.Name() != "len" && b.Name() != "cap") {
+				return nil
+			}
+		case *ssa.Range, *ssa.Phi:
+			// ranged over / merged: element reads only if nothing else stores (checked above)
+			if _, isPhi := x.(*ssa.Phi); isPhi {
+				return nil
+			}
+		default:
+			return nil
+		}
+	}
+	if store == nil {
+		return nil
+	}
+	var loop *Loop
+	for _, l := range naturalLoops(s.fn) {
+		if l.Blocks[store.Block()] && (loop == nil || len(l.Blocks) < len(loop.Blocks)) {
+			loop = l
+		}
+	}
+	if loop == nil {
+		return nil
+	}
+	if loop.Blocks[at.Block()] {
+		// read back in the same iteration: same index value, after the store
+		if ia.Index == store.Addr.(*ssa.IndexAddr).Index && dominates(store, at) {
+			return s.Of(store.Val)
+		}
+		return nil
+	}
+	// every iteration stores (the store's block dominates the back edges), the
+	// store index is the loop's 0-based unit counter, bounded by the make's length
+	for _, latch := range loop.Latches {
+		if !store.Block().Dominates(latch) {
+			return nil
+		}
+	}
+	six := store.Addr.(*ssa.IndexAddr).Index
+	n := s.loopCountOf(loop, six)
+	if n == nil || s.Of(n).String() != s.Of(ms.Len).String() {
+		return nil
+	}
+	// the load happens after the loop: some exit block of the loop dominates it
+	after := false
+	for b := range loop.Blocks {
+		for _, su := range b.Succs {
+			if !loop.Blocks[su] && (su == at.Block() || su.Dominates(at.Block())) {
+				after = true
+			}
+		}
+	}
+	if !after {
+		return nil
+	}
+	val := s.Of(store.Val)
+	// a slot holding a buffer may be filled through the slot (copy(slots[k], x)):
+	// writers reached through loads of the slots
+	var writers []ssa.Instruction
+	for _, r := range *ms.Referrers() {
+		x, ok := r.(*ssa.IndexAddr)
+		if !ok {
+			continue
+		}
+		for _, u := range *x.Referrers() {
+			ld, ok := u.(*ssa.UnOp)
+			if !ok {
+				continue
+			}
+			for _, uu := range *ld.Referrers() {
+				if viewWriter(uu, ld) {
+					writers = append(writers, uu)
+				}
+				if sl, ok := uu.(*ssa.Slice); ok {
+					for _, u3 := range *sl.Referrers() {
+						if viewWriter(u3, sl) {
+							writers = append(writers, u3)
+						}
+					}
+				}
+			}
+		}
+	}
+	if len(writers) > 0 {
+		inner, isMake := store.Val.(*ssa.MakeSlice)
+		if len(writers) != 1 || !isMake {
+			return nil
+		}
+		c, isCall := writers[0].(*ssa.Call)
+		if !isCall || !loop.Blocks[c.Block()] || !dominates(store, c) {
+			return nil
+		}
+		b, isB := c.Call.Value.(*ssa.Builtin)
+		if !isB || b.Name() != "copy" {
+			return nil
+		}
+		dst, isLd := c.Call.Args[0].(*ssa.UnOp)
+		if !isLd {
+			return nil
+		}
+		dia, isIA := dst.X.(*ssa.IndexAddr)
+		if !isIA || dia.Index != six {
+			return nil
+		}
+		val = T("make", "", s.Of(inner.Len), T("copy", "", s.Of(c.Call.Args[1])))
+	}
+	// V(k) with the store loop's index k renamed to the index read here
+	return substTerm(val, s.Of(six).String(), s.Of(ia.Index))
+}
+
+// substTerm: t with every subterm printing as `from` replaced by `to`.
+func substTerm(t *Term, from string, to *Term) *Term {
+	if t == nil {
+		return nil
+	}
+	if t.String() == from {
+		return to
+	}
+	if len(t.Args) == 0 || !strings.Contains(t.String(), from) {
+		return t
+	}
+	c := *t
+	c.Args = make([]*Term, len(t.Args))
+	for i, a := range t.Args {
+		c.Args[i] = substTerm(a, from, to)
+	}
+	c.str = ""
+	return &c
+}
+
+// loopCountOf: idx is the 0-based unit-step counter of loop l (a header phi
+// 0, +1 tested `idx < n`, or the index of a range over a slice); returns n (the
+// bound value, or the len(...) of the ranged slice as an SSA value when
+// available), nil otherwise.
+func (s *Sym) loopCountOf(l *Loop, idx ssa.Value) ssa.Value {
+	switch x := idx.(type) {
+	case *ssa.Phi:
+		if x.Block() != l.Header || len(x.Edges) < 2 {
+			return nil
+		}
+		for i, e := range x.Edges {
+			if l.Blocks[x.Block().Preds[i]] {
+				inc, ok := e.(*ssa.BinOp)
+				if !ok || inc.Op != token.ADD || inc.X != ssa.Value(x) {
+					return nil
+				}
+				if c, ok := inc.Y.(*ssa.Const); !ok || c.Value == nil || c.Value.ExactString() != "1" {
+					return nil
+				}
+			} else if c, ok := e.(*ssa.Const); !ok || c.Value == nil || c.Value.ExactString() != "0" {
+				return nil
+			}
+		}
+		if ifi, ok := x.Block().Instrs[len(x.Block().Instrs)-1].(*ssa.If); ok {
+			if bo, ok := ifi.Cond.(*ssa.BinOp); ok && bo.Op == token.LSS && bo.X == ssa.Value(x) && l.Blocks[x.Block().Succs[0]] {
+				return bo.Y
+			}
+		}
+	case *ssa.BinOp:
+		// go/ssa's range-over-slice: idx = phi(-1, idx) + 1 tested `idx < len(s)`
+		if x.Op != token.ADD {
+			return nil
+		}
+		ph, ok := x.X.(*ssa.Phi)
+		if !ok || ph.Block() != l.Header || len(ph.Edges) < 2 {
+			return nil
+		}
+		if c, ok := x.Y.(*ssa.Const); !ok || c.Value == nil || c.Value.ExactString() != "1" {
+			return nil
+		}
+		for i, e := range ph.Edges {
+			if l.Blocks[ph.Block().Preds[i]] {
+				if e != ssa.Value(x) {
+					return nil
+				}
+			} else if c, ok := e.(*ssa.Const); !ok || c.Value == nil || c.Value.ExactString() != "-1" {
+				return nil
+			}
+		}
+		if x.Block() != l.Header {
+			return nil
+		}
+		if ifi, ok := x.Block().Instrs[len(x.Block().Instrs)-1].(*ssa.If); ok {
+			if bo, ok := ifi.Cond.(*ssa.BinOp); ok && bo.Op == token.LSS && bo.X == ssa.Value(x) && l.Blocks[x.Block().Succs[0]] {
+				return bo.Y
+			}
+		}
+	}
+	return nil
+}
+
+// sumAccumulator: total := 0; for ... { total += len(x(i)) } - after the loop
+// total is the length of the concatenation of the x(i): len(each(x(i))). Only
+// for a header phi whose value is used outside its loop (inside, it is a
+// partial sum).
+func (s *Sym) sumAccumulator(ph *ssa.Phi) *Term {
+	b, ok := ph.Type().Underlying().(*types.Basic)
+	if !ok || b.Info()&types.IsInteger == 0 || len(ph.Edges) != 2 || s.inSumAcc[ph] {
+		return nil
+	}
+	var loop *Loop
+	for _, l := range naturalLoops(s.fn) {
+		if l.Header == ph.Block() {
+			loop = l
+		}
+	}
+	if loop == nil {
+		return nil
+	}
+	var step *ssa.BinOp
+	for i, e := range ph.Edges {
+		if loop.Blocks[ph.Block().Preds[i]] {
+			bo, ok := e.(*ssa.BinOp)
+			if !ok || bo.Op != token.ADD {
+				return nil
+			}
+			step = bo
+		} else if c, ok := e.(*ssa.Const); !ok || c.Value == nil || c.Value.ExactString() != "0" {
+			return nil
+		}
+	}
+	if step == nil {
+		return nil
+	}
+	var add ssa.Value
+	switch {
+	case step.X == ssa.Value(ph):
+		add = step.Y
+	case step.Y == ssa.Value(ph):
+		add = step.X
+	default:
+		return nil
+	}
+	for {
+		if cv, ok := add.(*ssa.Convert); ok {
+			add = cv.X
+			continue
+		}
+		break
+	}
+	lc, ok := add.(*ssa.Call)
+	if !ok {
+		return nil
+	}
+	if bi, ok := lc.Call.Value.(*ssa.Builtin); !ok || bi.Name() != "len" {
+		return nil
+	}
+	// every iteration adds (single back edge value is phi + len) and the phi is
+	// used only by its own step inside the loop
+	for _, r := range *ph.Referrers() {
+		if r == ssa.Instruction(step) {
+			continue
+		}
+		if _, isDbg := r.(*ssa.DebugRef); isDbg {
+			continue
+		}
+		if loop.Blocks[r.Block()] {
+			if _, isIf := r.(*ssa.If); isIf {
+				continue
+			}
+			return nil
+		}
+	}
+	for _, r := range *step.Referrers() {
+		if r != ssa.Instruction(ph) {
+			if _, isDbg := r.(*ssa.DebugRef); !isDbg {
+				return nil
+			}
+		}
+	}
+	if s.inSumAcc == nil {
+		s.inSumAcc = map[*ssa.Phi]bool{}
+	}
+	s.inSumAcc[ph] = true
+	defer delete(s.inSumAcc, ph)
+	x := s.Of(lc.Call.Args[0])
+	return T("len", "", T("each", "", x))
+}
+
 // linTerm renders a constant linear form as a term (nil if not constant).
 func linTerm(l Lin) *Term {
 	if len(l.c) == 0 && l.k.IsInt() {
@@ -2254,7 +2871,7 @@ func canonBigBytes(t *Term) *Term {
 		"bin</>(bin<+>(call<(*math/big.Int).BitLen>(" + xs + "), const:7), const:8)",
 		"bin</>(bin<+>(const:7, call<(*math/big.Int).BitLen>(" + xs + ")), const:8)",
 	} {
-		if t.Args[0].String() == ln {
+		if t.Args[0].String() == ln || (t.Args[0].Op == "linatom" && t.Args[0].Name == ln) {
 			return &Term{Op: "call", Name: "(*math/big.Int).Bytes", Args: []*Term{x}, Src: t.Src}
 		}
 	}
